@@ -68,8 +68,9 @@ def FieldShape (o : Operand) (p : Pkg) : Prop :=
   ∨ p.additional.isNumeric = true
   ∨ p.needsRes = true
   ∨ (p.opCode = .none ∧ p.postByte = .none ∧ p.choices = [] ∧
-      ∃ hs, (p.additional = .multiByte hs ∨ p.additional = .multiWord hs) ∧ hs.flatten.length % 2 = 0 ∧
-        p.size = hs.flatten.length / 2)
+      ∃ hs, ((p.additional = .multiByte hs ∧ ∀ g ∈ hs, g.length = 2) ∨
+          (p.additional = .multiWord hs ∧ ∀ g ∈ hs, g.length = 4)) ∧ o.value = p.additional ∧ o.kind = .pseudo ∧
+        hs.flatten.length % 2 = 0 ∧ p.size = hs.flatten.length / 2)
 
 /-- a package that is resolved later and has no post byte choices (batch B3: a label as constant offset of a pointer
 register) has room for a 16-bit field: `2 * size` = the digits of op code and post byte, and four more -/
@@ -495,7 +496,8 @@ theorem Fieldable.not_multi {v : Value} (h : Fieldable v) : v.isMultiByte = fals
     | exact ⟨rfl, rfl, by simp⟩
 
 theorem translatePseudo_fcb {o : Operand} {row : InstrRow} {p : Pkg} (hm : row.mnemonic = "FCB")
-    (hmb : row.isMultiByte = true) (hd : DataShape row o.value) (h : translatePseudo o row = .ok p) :
+    (hmb : row.isMultiByte = true) (hd : DataShape row o.value) (h : translatePseudo o row = .ok p)
+    (hkp : o.kind = .pseudo) :
     PkgShape o p := by
   unfold translatePseudo at h
   have e1 : (("FCB" : String) == "FCB") = true := by decide
@@ -512,14 +514,15 @@ theorem translatePseudo_fcb {o : Operand} {row : InstrRow} {p : Pkg} (hm : row.m
     simp only [Value.isMultiByte, if_true, Value.byteLen?, Value.hexLen?, Value.hex?, Option.map] at h
     cases h
     have hlen := flatten_length_const hs hl
-    refine ⟨.inl rfl, .inl rfl, .inr (.inr (.inr (.inr ⟨rfl, rfl, rfl, hs, .inl ?_, ?_, ?_⟩))), fun hn => by cases hn⟩
+    refine ⟨.inl rfl, .inl rfl, .inr (.inr (.inr (.inr ⟨rfl, rfl, rfl, hs, .inl ⟨?_, hl⟩, hv, hkp, ?_, ?_⟩))), fun hn => by cases hn⟩
     · rfl
     · rw [hlen]; omega
     · rfl
   · rw [hmb] at hc; cases hc
 
 theorem translatePseudo_fdb {o : Operand} {row : InstrRow} {p : Pkg} (hm : row.mnemonic = "FDB")
-    (hmb : row.isMultiByte = false) (hd : DataShape row o.value) (h : translatePseudo o row = .ok p) :
+    (hmb : row.isMultiByte = false) (hd : DataShape row o.value) (h : translatePseudo o row = .ok p)
+    (hkp : o.kind = .pseudo) :
     PkgShape o p := by
   unfold translatePseudo at h
   have e1 : (("FDB" : String) == "FCB") = false := by decide
@@ -538,7 +541,7 @@ theorem translatePseudo_fdb {o : Operand} {row : InstrRow} {p : Pkg} (hm : row.m
     simp only [Value.isMultiWord, if_true, Value.byteLen?, Value.hexLen?, Value.hex?, Option.map] at h
     cases h
     have hlen := flatten_length_const hs hl
-    refine ⟨.inl rfl, .inl rfl, .inr (.inr (.inr (.inr ⟨rfl, rfl, rfl, hs, .inr ?_, ?_, ?_⟩))), fun hn => by cases hn⟩
+    refine ⟨.inl rfl, .inl rfl, .inr (.inr (.inr (.inr ⟨rfl, rfl, rfl, hs, .inr ⟨?_, hl⟩, hv, hkp, ?_, ?_⟩))), fun hn => by cases hn⟩
     · rfl
     · rw [hlen]; omega
     · rfl
@@ -604,10 +607,10 @@ theorem translateOperand_shape {o : Operand} {row : InstrRow} {p : Pkg} (hrow : 
     rw [hk] at h
     dsimp only at h
     cases hmb : row.isMultiByte with
-    | true => exact translatePseudo_fcb (f1 hmb) hmb hd h
+    | true => exact translatePseudo_fcb (f1 hmb) hmb hd h hk
     | false =>
       rw [hmb] at hm
-      exact translatePseudo_fdb (f2 (by simpa using hm)) hmb hd h
+      exact translatePseudo_fdb (f2 (by simpa using hm)) hmb hd h hk
   | relative =>
     obtain ⟨t1, t2, _, t4, t5, t6, _⟩ := translate_relative h hk
     exact ⟨opVal_codeVal t4, by rw [t5]; exact .inl rfl, .inr (.inl ⟨t1, .inr (.inl t2)⟩),
@@ -671,6 +674,10 @@ theorem translateOperand_shape {o : Operand} {row : InstrRow} {p : Pkg} (hrow : 
 
 /-- a package that is emitted as it stands: `fix_addresses` changes nothing, the bytes number `size` (the strings
 `create` builds are made of characters below 256: `PV`), and a string field is the operand value -/
+theorem nolist_of {v : Value} (h : v = .none ∨ v.isNumeric = true) :
+    (∀ hs, v ≠ .multiByte hs) ∧ (∀ hs, v ≠ .multiWord hs) := by
+  refine ⟨fun hs hh => ?_, fun hs hh => ?_⟩ <;> (subst hh; rcases h with h | h <;> cases h)
+
 structure PlainShape (o : Operand) (p : Pkg) : Prop where
   needs : p.needsRes = false
   choices : p.choices = []
@@ -678,6 +685,8 @@ structure PlainShape (o : Operand) (p : Pkg) : Prop where
   noexpr : o.value.isAddrExpr = false
   bytes : ∃ a b c, Emits p.opCode a ∧ Emits p.postByte b ∧ Emits p.additional c ∧ a + b + c = p.size
   addl : ∀ x, p.additional = .str x → o.value = .str x
+  /-- (batch 8) the field is the operand value, or no list -/
+  nolist : p.additional = o.value ∨ ((∀ hs, p.additional ≠ .multiByte hs) ∧ (∀ hs, p.additional ≠ .multiWord hs))
 
 theorem regMask_lt (other r : Str) : regMaskPshPul other r < 256 := by
   unfold regMaskPshPul
@@ -707,7 +716,8 @@ theorem translateSpecial_plain {o : Operand} {row : InstrRow} {p : Pkg} (hrow : 
   have key : ∀ {op pb : Value} {x : Nat}, opVal row.imm = .ok op → numV x = .ok pb → x < 256 →
       PlainShape o { opCode := op, postByte := pb, size := row.immSz, maxSize := row.immSz } := by
     intro op pb x hop hpb hx
-    refine ⟨rfl, rfl, by rw [hv]; rfl, by rw [hv]; rfl, ?_, fun x hx => by cases hx⟩
+    refine ⟨rfl, rfl, by rw [hv]; rfl, by rw [hv]; rfl, ?_, (fun x hx => by cases hx),
+      .inr (nolist_of (by simp))⟩
     obtain ⟨_, e1, m1⟩ := (opVal_codeVal hop).emits
     obtain ⟨_, e2, m2⟩ := CodeVal.emits (v := pb) (Or.inr ⟨x, hpb⟩)
     have := szOk_use hsz hop
@@ -766,7 +776,8 @@ theorem translatePseudo_plain {o : Operand} {row : InstrRow} {p : Pkg} (hm1 : ro
       PlainShape o q := by
     intro q q1 q2 q3 q4 q5 q8 q6 q7
     exact ⟨q5, q8, q6, q7, ⟨0, 0, 0, by rw [q1]; exact none_emits, by rw [q2]; exact none_emits,
-      by rw [q3]; exact none_emits, by rw [q4]⟩, fun x hx => by rw [q3] at hx; cases hx⟩
+      by rw [q3]; exact none_emits, by rw [q4]⟩, (fun x hx => by rw [q3] at hx; cases hx),
+      .inr (nolist_of (by rw [q3]; simp))⟩
   unfold translatePseudo at h
   simp only [e1, e2, bind, Except.bind, pure, Except.pure, throw, throwThe, MonadExceptOf.throw,
     Bool.false_eq_true, if_false] at h
@@ -790,7 +801,7 @@ theorem translatePseudo_plain {o : Operand} {row : InstrRow} {p : Pkg} (hm1 : ro
           rw [hz] at h
           cases h
           refine ⟨rfl, rfl, hna.1, hna.2, ⟨0, 0, i, none_emits, none_emits, ?_, by simp⟩,
-            fun x hx => by cases hx⟩
+            (fun x hx => by cases hx), .inr (nolist_of (.inr rfl))⟩
           have := numeric_emits 0 (some (i * 2)) .extended false (by simp [numHexLen])
           simpa [numHexLen] using this
         · cases h
@@ -824,7 +835,7 @@ theorem translatePseudo_plain {o : Operand} {row : InstrRow} {p : Pkg} (hm1 : ro
         · cases h
         · rename_i bl hbl
           cases h
-          refine ⟨rfl, rfl, n1, n2, ?_, fun x hx => hx⟩
+          refine ⟨rfl, rfl, n1, n2, ?_, fun x hx => hx, .inl rfl⟩
           obtain ⟨k, hk, hem⟩ := pv_emits hpv
           split at hbl
           · rename_i b hb
